@@ -620,6 +620,20 @@ def R5_pinocchio_superset(run):
             if at.true_fail != at.false_fail:
                 got |= cfg.error_codes_from(fn, at.true_targets[0] if at.true_fail else at.false_targets[0])
         run.check("R5", "helper@" + path.rsplit("::", 1)[-1], codes <= got, "%s fails with %s, expected %s" % (path, sorted(got), sorted(codes)), loc=fn.loc(), detail="fails with " + ", ".join(sorted(codes)))
+    # verify_address refuses exactly when the two keys differ: its only refusing test is an equality of the two whole 32-byte parameters
+    fn = facts.need_fn("pinocchio::utils::verify::verify_address")
+    whole = []
+    for at in A.atoms(fn):
+        if at.true_fail == at.false_fail:
+            continue
+        x = strip(at.term)
+        nm = x[1].rsplit("::", 1)[-1] if x[0] == "call" else (x[1] if x[0] == "bin" else None)
+        args = list(x[2]) if x[0] == "call" else ([x[2], x[3]] if x[0] == "bin" else [])
+        both = len(args) == 2 and {a_[1] for a_ in map(strip, args) if a_[0] == "param"} == {"address", "expected"}
+        eq_fails_when_unequal = (nm in ("pubkey_eq", "eq", "Eq") and at.false_fail) or (nm in ("ne", "Ne") and at.true_fail)
+        whole.append(both and eq_fails_when_unequal)
+    run.check("R5", "helper-compares-whole-keys@verify_address", len(whole) == 1 and all(whole), "verify_address does not refuse exactly when address != expected (whole 32-byte keys)", loc=fn.loc(),
+              detail="!pubkey_eq(address, expected) => ConstraintAddress")
     from rules.common import owner_tests
     for path in ("pinocchio::utils::account_load::load_account", "pinocchio::utils::account_load::load_account_mut"):
         fn = facts.need_fn(path)
